@@ -488,7 +488,13 @@ where
     #[inline]
     async fn on_heartbeat(&mut self) -> Result<Running, ConnectionInnerError> {
         match &self.connection.local_state() {
-            ConnectionState::Start | ConnectionState::CloseSent => return Ok(Running::Continue),
+            // Nothing may follow the close frame, whether it carried an error or was
+            // sent before the remote open arrived
+            ConnectionState::Start
+            | ConnectionState::CloseSent
+            | ConnectionState::Discarding
+            | ConnectionState::ClosePipe
+            | ConnectionState::OpenClosePipe => return Ok(Running::Continue),
             ConnectionState::End => return Ok(Running::Stop),
             _ => {}
         }
